@@ -92,7 +92,7 @@ def parseNumber (num : Str) : R Literal :=
   let num := trim num
   if num.any (fun c => c == '.' || c == 'e' || c == 'E') then
     match parseF64 num with
-    | some (n, d) => pure (.float n d)
+    | some (n, d) => if f64Finite n d then pure (.float n d) else err     -- `!float.is_finite()`: number out of bounds
     | none => err
   else match parseI64 (trim num) with
     | some v => if v > MAXV || v < -MAXV then err else pure (.int v)
